@@ -36,7 +36,7 @@ void iv_run_timers__contract(struct iv_state *st)
 __CPROVER_requires(st == verif_st)
 __CPROVER_requires(!g_timers_ran && !g_tasks_ran)
 __CPROVER_requires(!g_polled || g_last_ret != 0)	/* [C04] timers are evaluated at start and whenever the poll step asks for it, not otherwise */
-__CPROVER_requires(g_polled || st->quit == 0)		/* [C07] a quit request from before iv_main was entered is discarded */
+__CPROVER_requires(g_polled || st->quit == 0)		/* [C07,C13] a quit request from before iv_main was entered is discarded (a second iv_main after iv_quit must wait for outstanding threads and pools again) */
 __CPROVER_assigns(st->quit, st->numobjs, st->tasks, g_timers_ran)
 __CPROVER_ensures(g_timers_ran)
 ;
@@ -71,7 +71,7 @@ void iv_main__contract(void)
 __CPROVER_requires(verif_st != NULL && !g_polled && !g_timers_ran && !g_tasks_ran)
 __CPROVER_assigns(verif_st->quit, verif_st->numobjs, verif_st->tasks,
 		  g_polled, g_last_ret, g_timers_ran, g_tasks_ran)
-__CPROVER_ensures(verif_st->quit || verif_st->numobjs == 0)	/* [C07] returns only after iv_quit or with nothing registered */
+__CPROVER_ensures(verif_st->quit || verif_st->numobjs == 0)	/* [C07,C13] returns only after iv_quit or with nothing registered */
 __CPROVER_ensures(g_tasks_ran && !g_timers_ran)			/* [C07] the exit test is made right after timers and tasks ran, before polling */
 ;
 
